@@ -1962,7 +1962,8 @@ RULE = ("cases are JSON specs executed against the real qibo: (qasm) one circuit
         "{plain, 1-3 controls, dagger, updated parameters, non-trainable} through raw and through json text, M in all keyword "
         "forms; (circuit_dict) every class inside a circuit + layouts + random circuits; (bind) constructor calls with every "
         "positional/keyword split and malformed calls; (program) QASM programs with several registers, expressions and custom "
-        "gates; (result) state / outcomes / both x what was computed before the dump x 3 import paths. A case counts as "
+        "gates; (custom_gate) generated programs with user-defined gates -- nested definitions, forwarded parameters, literal "
+        "arguments 0, 0.0, -0.0, pi, -pi/2, pi-pi, ... -- whose import is compared with the expansion known to the generator; (result) state / outcomes / both x what was computed before the dump x 3 import paths. A case counts as "
         "non-trivial when the circuit has at least one gate; distinct = distinct spec (sha1 of the canonical JSON).")
 
 
@@ -1991,6 +1992,7 @@ def run_all(run):
     suites = [("qasm", suite_qasm), ("gate_dict", suite_gate_dict), ("circuit_dict", suite_circuit_dict),
               ("bind", suite_bind), ("results", suite_results)]
     suite_programs(run, rng, T)
+    suite_custom_gates(run, random.Random(run.seed * 7919 + 13), T)
     for name, fn in suites:
         batch, res = fn(run, rng, T)
         bad = [k for k, v in res.items() if v is False and "modelled" not in k]
@@ -2068,6 +2070,9 @@ def replay(run, data):
         finally:
             shutil.rmtree(tmp, ignore_errors=True)
         again = cat in ("import_rejects", "differs")
+    elif suite == "custom_gate":
+        cat, detail, _ = cg_outcome(rp["program"])
+        again = cat != "ok"
     elif suite == "program":
         from qibo import Circuit
         try:
@@ -2086,3 +2091,230 @@ def replay(run, data):
     if again:
         run.find(key, data.get("what", "") + " [replayed: " + str(detail)[:200] + "]", rp)
     return run.finish(level="proof", rule="replay of one recorded case against the real implementation")
+
+
+# =====================================================================================
+# suite 7: user-defined QASM gates (`gate name(params) qubits { ... }`): the imported circuit against the
+#          expansion of the definitions that the generator knows (independent of the Coq model)
+# =====================================================================================
+CG_LITERALS = [("0", 0), ("0.0", 0.0), ("-0.0", -0.0), ("pi", PI), ("-pi/2", -PI / 2), ("pi-pi", 0.0), ("0.9", 0.9),
+               ("3", 3), ("1e-300", 1e-300), ("2*pi/3", 2 * PI / 3), ("0.1234567890123456", 0.1234567890123456), ("pi/4", PI / 4)]
+CG_PARAM_NAMES = ["a", "b", "theta", "lam", "x0", "t", "beta", "w"]     # never a name that eval() could resolve, never containing "pi"
+CG_QUBIT_NAMES = ["q0", "q1", "q2", "r", "s"]
+
+
+def cg_builtin_table():
+    """label -> (class name, number of qubits, number of parameters) for fixed-arity labelled classes"""
+    out = {}
+    for name in labelled_classes():
+        g, _ = build(name, placement(arity(name)), [0.5])
+        if name in ("I",) or (g.parameters and isinstance(g.parameters[0], np.ndarray)):
+            continue
+        out[g.qasm_label] = (name, len(g.qubits), len(g.parameters))
+    return out
+
+
+def cg_arg_text(a):
+    return a["lit"] if "lit" in a else a["fwd"]
+
+
+def cg_program_text(prog):
+    lines = ["OPENQASM 2.0;", 'include "qelib1.inc";']
+    for d in prog["defs"]:
+        body = " ".join(it["gate"] + (("(" + ",".join(cg_arg_text(a) for a in it["args"]) + ")") if it["args"] else "")
+                        + " " + ",".join(it["q"]) + ";" for it in d["body"])
+        lines.append(f"gate {d['name']}" + (("(" + ",".join(d["params"]) + ")") if d["params"] else "") + " " + ",".join(d["qubits"]) + " { " + body + " }")
+    lines.append(f"qreg q[{prog['n']}];")
+    for c in prog["calls"]:
+        lines.append(c["gate"] + (("(" + ",".join(cg_arg_text(a) for a in c["args"]) + ")") if c["args"] else "")
+                     + " " + ",".join(f"q[{i}]" for i in c["q"]) + ";")
+    return "\n".join(lines)
+
+
+def cg_literal(text):
+    """value of a literal argument: the table above, or a plain python number"""
+    m = dict(CG_LITERALS)
+    return m[text] if text in m else ast.literal_eval(text)
+
+
+def cg_value(a, env):
+    if "fwd" in a:
+        return env[a["fwd"]]
+    return cg_literal(a["lit"])
+
+
+def cg_expand(prog, item, qmap, env, table):
+    """OpenQASM meaning of one call: flat list of (class, qubits, parameter values)"""
+    defs = {d["name"]: d for d in prog["defs"]}
+    qs = [qmap[x] if not isinstance(x, int) else x for x in item["q"]]
+    vals = [cg_value(a, env) for a in item["args"]]
+    if item["gate"] in defs:
+        d = defs[item["gate"]]
+        qm, en = dict(zip(d["qubits"], qs)), dict(zip(d["params"], vals))
+        out = []
+        for it in d["body"]:
+            out += cg_expand(prog, it, qm, en, table)
+        return out
+    return [(table[item["gate"]][0], tuple(qs), tuple(vals))]
+
+
+def cg_outcome(prog):
+    """import the program with the real reader and compare every top-level statement with its expansion"""
+    from qibo import Circuit
+    table = cg_builtin_table()
+    text = cg_program_text(prog)
+    try:
+        with warnings.catch_warnings():
+            warnings.simplefilter("ignore")
+            c = Circuit.from_qasm(text)
+    except Exception as e:
+        return "import_rejects", f"{type(e).__name__}: {str(e)[:140]}", text
+    if len(c.queue) != len(prog["calls"]) or c.nqubits != prog["n"]:
+        return "differs", f"{len(prog['calls'])} statements became {len(c.queue)} gates", text
+    defs = {d["name"] for d in prog["defs"]}
+    for call, g in zip(prog["calls"], c.queue):
+        want = []
+        for cls, qs, vals in cg_expand(prog, call, {}, {}, table):
+            want.append(gview(namespace()[cls](*qs, *vals), as_float=True))
+        got = [gview(x, as_float=True) for x in (g.gates if type(g).__name__ == "FusedGate" else [g])]
+        if call["gate"] in defs and (type(g).__name__ != "FusedGate" or tuple(g.target_qubits) != tuple(sorted(call["q"]))):
+            return "differs", f"call of {call['gate']} on {call['q']} imported as {type(g).__name__} on {tuple(g.target_qubits)}", text
+        if want != got:
+            bad = next(((w, h) for w, h in zip(want, got) if w != h), (len(want), len(got)))
+            return "differs", f"call {call['gate']}({','.join(cg_arg_text(a) for a in call['args'])}) on {call['q']}: expected {bad[0]} but imported {bad[1]}", text
+    return "ok", "", text
+
+
+def cg_fixed_programs():
+    L = lambda t: {"lit": t}
+    F = lambda n: {"fwd": n}
+    bob = {"name": "bob", "params": ["theta", "alpha"], "qubits": ["q0", "q1"],
+           "body": [{"gate": "h", "args": [], "q": ["q1"]}, {"gate": "cx", "args": [], "q": ["q0", "q1"]},
+                    {"gate": "rz", "args": [F("theta")], "q": ["q1"]}, {"gate": "rx", "args": [F("alpha")], "q": ["q0"]}]}
+    alice = {"name": "alice", "params": ["theta"], "qubits": ["q0", "q1"],
+             "body": [{"gate": "bob", "args": [L("0"), F("theta")], "q": ["q0", "q1"]}, {"gate": "x", "args": [], "q": ["q0"]}]}
+    carol = {"name": "carol", "params": ["a", "b"], "qubits": ["r", "s", "q2"],
+             "body": [{"gate": "alice", "args": [F("b")], "q": ["q2", "r"]}, {"gate": "u3", "args": [F("a"), L("0.0"), F("b")], "q": ["s"]},
+                      {"gate": "bob", "args": [F("a"), L("pi-pi")], "q": ["s", "q2"]}, {"gate": "ccx", "args": [], "q": ["s", "q2", "r"]}]}
+    plain = {"name": "bell", "params": [], "qubits": ["q0", "q1"],
+             "body": [{"gate": "h", "args": [], "q": ["q0"]}, {"gate": "cx", "args": [], "q": ["q0", "q1"]}]}
+    out = []
+    for t1, t2 in (("0.4", "0.9"), ("0", "0.9"), ("0.9", "0"), ("0.0", "-0.0"), ("pi", "-pi/2"), ("pi-pi", "3")):
+        out.append((f"direct_{t1}_{t2}", {"n": 2, "defs": [bob], "calls": [{"gate": "bob", "args": [L(t1), L(t2)], "q": [1, 0]}]}))
+    for t in ("0.7", "0", "pi", "-pi/2", "0.0"):
+        out.append((f"nested_{t}", {"n": 3, "defs": [bob, alice], "calls": [{"gate": "alice", "args": [L(t)], "q": [2, 0]},
+                                                                           {"gate": "h", "args": [], "q": [1]}]}))
+    for t1, t2 in (("0.3", "0.6"), ("0", "0.6"), ("0.3", "0"), ("0", "0.0")):
+        out.append((f"nested2_{t1}_{t2}", {"n": 4, "defs": [bob, alice, carol, plain],
+                                            "calls": [{"gate": "carol", "args": [L(t1), L(t2)], "q": [3, 0, 2]},
+                                                      {"gate": "bob", "args": [L(t2), L(t1)], "q": [1, 3]},
+                                                      {"gate": "bell", "args": [], "q": [2, 1]}]}))
+    out.append(("no_params", {"n": 3, "defs": [plain], "calls": [{"gate": "bell", "args": [], "q": [2, 0]}, {"gate": "bell", "args": [], "q": [0, 1]}]}))
+    return out
+
+
+def cg_random_program(rng, table):
+    # `ms` is left out of definition bodies: MS.__init__ range-checks theta, which fails on the placeholder string
+    # of a forwarded parameter at definition time (importer limitation on the clean tree, recorded as an observation)
+    labels = sorted(l for l, (_, nq, _) in table.items() if nq <= 3 and l != "ms")
+    defs = []
+    for di in range(rng.randint(1, 4)):
+        nq = rng.randint(1, 3)
+        params = rng.sample(CG_PARAM_NAMES, rng.randint(0, 3))
+        qubits = rng.sample(CG_QUBIT_NAMES, nq)
+        body = []
+        for _ in range(rng.randint(1, 4)):
+            cands = [d for d in defs if len(d["qubits"]) <= nq]
+            if cands and rng.random() < 0.45:
+                d = rng.choice(cands)
+                name, k, npar = d["name"], len(d["qubits"]), len(d["params"])
+            else:
+                name = rng.choice([l for l in labels if table[l][1] <= nq])
+                _, k, npar = table[name]
+            args = []
+            for j in range(npar):
+                if params and rng.random() < 0.55:
+                    args.append({"fwd": rng.choice(params)})
+                else:
+                    lits = [t for t, v in CG_LITERALS if not (name == "ms" and j == 2 and not 0 <= float(v) <= PI / 2)]
+                    args.append({"lit": rng.choice(lits[:6] if rng.random() < 0.6 else lits)})
+            body.append({"gate": name, "args": args, "q": rng.sample(qubits, k)})
+        defs.append({"name": f"g{di}", "params": params, "qubits": qubits, "body": body})
+    n = rng.randint(3, 5)
+    calls = []
+    for _ in range(rng.randint(1, 4)):
+        d = rng.choice(defs)
+        lits = [t for t, v in CG_LITERALS]
+        calls.append({"gate": d["name"], "args": [{"lit": rng.choice(lits[:6] if rng.random() < 0.6 else lits)} for _ in d["params"]],
+                      "q": rng.sample(range(n), len(d["qubits"]))})
+    return {"n": n, "defs": defs, "calls": calls}
+
+
+def cg_ms_safe(prog, table):
+    """MS restricts its third parameter to [0, pi/2]: drop programs whose expansion violates it (constructor constraint, not the reader)"""
+    try:
+        for call in prog["calls"]:
+            for cls, qs, vals in cg_expand(prog, call, {}, {}, table):
+                namespace()[cls](*qs, *vals)
+        return True
+    except Exception:
+        return False
+
+
+def cg_key(prog, cat):
+    """shrink to one top-level call, then name the failure by whether a zero-valued argument is involved"""
+    small = prog
+    for call in prog["calls"]:
+        cand = dict(prog, calls=[call])
+        if cg_outcome(cand)[0] == cat:
+            small = cand
+            break
+    table = cg_builtin_table()
+    zero = False
+
+    def walk(item, env):
+        nonlocal zero
+        defs = {d["name"]: d for d in small["defs"]}
+        vals = [cg_value(a, env) for a in item["args"]]
+        if item["gate"] in defs:
+            if any(v == 0 for v in vals):
+                zero = True
+            d = defs[item["gate"]]
+            for it in d["body"]:
+                walk(it, dict(zip(d["params"], vals)))
+    for call in small["calls"]:
+        walk(call, {})
+    return f"qasm:custom_gate:{cat}:" + ("zero_valued_argument" if zero else "general"), small
+
+
+def suite_custom_gates(run, rng, T):
+    table = cg_builtin_table()
+    progs = list(cg_fixed_programs())
+    N = 250 if run.tier == "thorough" else 60
+    tries = 0
+    while len(progs) < len(cg_fixed_programs()) + N and tries < 20 * N:
+        tries += 1
+        p = cg_random_program(rng, table)
+        if cg_ms_safe(p, table):
+            progs.append((f"random{len(progs)}", p))
+    stats = {}
+    zero_calls = 0
+    for i, (label, prog) in enumerate(progs):
+        cat, detail, text = cg_outcome(prog)
+        stats[cat] = stats.get(cat, 0) + 1
+        run.case(["custom_gate", prog])
+        zero_calls += sum(1 for c in prog["calls"] for a in c["args"] if cg_literal(a["lit"]) == 0)
+        if i in (1, 7, 12) or i == len(progs) - 1:
+            run.sample({"suite": "custom_gate", "label": label, "program": text.split("\n")[2:], "outcome": cat})
+        if cat != "ok":
+            key, small = cg_key(prog, cat)
+            c2, d2, t2 = cg_outcome(small)
+            run.find(key, "a program with user-defined gates is " + ("rejected by" if cat == "import_rejects" else "read differently by")
+                     + f" from_qasm than its OpenQASM expansion: {d2 or detail}",
+                     {"suite": "custom_gate", "program": small, "text": t2, "category": cat, "detail": d2 or detail})
+    T["custom_gate_stats"] = dict(stats, programs=len(progs), top_level_arguments_equal_to_zero=zero_calls)
+    T["custom_gate_generator_exclusions"] = ["`ms` with a forwarded parameter inside a gate body: MS.__init__ range-checks the placeholder string -> 'Invalid gate declaration' on the clean tree (importer limitation, outside the export->import rule)",
+                                             "expressions of formal parameters inside bodies (kept as strings by the importer, see importer_observations_outside_property_text)",
+                                             "formal names that python's eval() resolves inside QASMParser._get_gate (gate, arg, qubits, ...) or that contain 'pi'"]
+    run.oblige("user-defined gate programs (nested definitions, forwarded parameters, zero-valued arguments) were imported and compared with their expansion",
+               len(progs) >= 20 and zero_calls >= 10, "coverage")
